@@ -94,8 +94,7 @@ theorem parseSection_depex (t : Nat) (ops : List DepOp) (rest : Bytes) (fuel ord
 theorem parseFiles_nil (fuel : Nat) (data : Bytes) (off length free : Nat) (st : St)
     (hfuel : 2 ≤ fuel) (hd : data.drop (alignUp off 8) = tailFiles off [] free)
     (hlen : data.length = length) (hl : length = off + free) (h8 : length % 8 = 0) (hlt : length < 2 ^ 62)
-    (h24 : 24 ≤ length)
-    (_htail : off + 24 < length → alignUp off 8 + 32 ≤ length) :
+    (h24 : 24 ≤ length) :
     parseFiles Hk fuel data off ((length + 18446744073709551616 - 24) % 18446744073709551616) length st =
       .ok ([], (if off + 24 ≤ length then length - alignUp off 8 else 0), st) := by
   obtain ⟨f, rfl⟩ : ∃ f, fuel = f + 1 := ⟨fuel - 1, by omega⟩
@@ -191,12 +190,10 @@ structure WfHdr (zv : Bytes) (v3 : Bool) (attrs rev rsv : Nat) (blocks : List Bl
   hhdr : fvHdrLen blocks < 65536
   hnb : files = [] ∨ blocks ≠ []
   hext : ∀ e, ext = some e → e.fvName.length = 16 ∧ ehoOf blocks ext < 65536 ∧ 20 + e.data.length < 4294967296 ∧
-      ehoOf blocks ext + 20 < endFiles (preLen blocks ext) files + free
+      ehoOf blocks ext + 20 ≤ endFiles (preLen blocks ext) files + free
   hlen8 : (endFiles (preLen blocks ext) files + free) % 8 = 0
   hlenlt : endFiles (preLen blocks ext) files + free < 0x4000000000000000
   hlen64 : 64 ≤ endFiles (preLen blocks ext) files + free
-  htail : endFiles (preLen blocks ext) files + 24 < endFiles (preLen blocks ext) files + free →
-      alignUp (endFiles (preLen blocks ext) files) 8 + 32 ≤ endFiles (preLen blocks ext) files + free
 
 /-- what `fvInfoOf` decodes from a serialised FFS volume -/
 theorem fvInfoOf_ffs (zv : Bytes) (v3 : Bool) (attrs rev rsv : Nat) (blocks : List Block) (ext : Option ExtI)
@@ -235,7 +232,7 @@ theorem fvInfoOf_ffs (zv : Bytes) (v3 : Bool) (attrs rev rsv : Nat) (blocks : Li
         (endFiles (preLen blocks (some e)) files + free) attrs 0 (ehoOf blocks (some e)) rsv rev blocks)).toNat
       (ehoOf blocks (some e)) rsv rev blocks w.hzv hgl
     have hcond : (ehoOf blocks (some e) ≠ 0 ∧ endFiles (preLen blocks (some e)) files + free ≥ 20 ∧
-        ehoOf blocks (some e) < endFiles (preLen blocks (some e)) files + free - 20) := by
+        ehoOf blocks (some e) ≤ endFiles (preLen blocks (some e)) files + free - 20) := by
       refine ⟨?_, ?_, ?_⟩
       · simp only [ehoOf, fvHdrLen]; omega
       · omega
@@ -248,7 +245,7 @@ theorem fvInfoOf_ffs (zv : Bytes) (v3 : Bool) (attrs rev rsv : Nat) (blocks : Li
       simp [preBytes]
     have hx : decide (ehoOf blocks (some e) ≠ 0 ∧ endFiles (preLen blocks (some e)) files + free ≥ 20 ∧
         ehoOf blocks (some e) ≤ endFiles (preLen blocks (some e)) files + free - 20) = true := by
-      simp only [decide_eq_true_eq]; exact ⟨hcond.1, hcond.2.1, Nat.le_of_lt hcond.2.2⟩
+      simp only [decide_eq_true_eq]; exact hcond
     have hbound : fvHdrLen blocks + e.gap.length + (20 + e.data.length) < 2 ^ 63 := by
       have : ehoOf blocks (some e) = fvHdrLen blocks + e.gap.length := rfl
       omega
